@@ -136,7 +136,7 @@ func run(c *lib.Ctx) error {
 	wg.Add(2)
 	go func() {
 		defer wg.Done()
-		gen, e1 = c.TLC("MCCodeBuffer(theorem+generate)", lib.TLCRun{Dir: dir, Module: "MCCodeBuffer", Workers: 6, Timeout: 13 * time.Minute, HeapGB: 8,
+		gen, e1 = c.TLC("MCCodeBuffer(theorem+generate)", lib.TLCRun{Dir: dir, Module: "MCCodeBuffer", Workers: 4, Timeout: 13 * time.Minute, HeapGB: 8,
 			Files: map[string][]byte{"MCCodeBuffer.cfg": mcCfg(N, "DesignTheorem", "ConseqImpl", "EmitB")}})
 	}()
 	go func() {
@@ -239,7 +239,7 @@ func run(c *lib.Ctx) error {
 	c.Set("g_unspecified_target", nunspec)
 	c.Set("exhaustive", true)
 	c.AddTraces(ncase)
-	bad, err := lib.Judge(c, "JudgeCodeBuffer(G)", dir, "JudgeCodeBuffer", permCases, 6, 13*time.Minute)
+	bad, err := lib.Judge(c, "JudgeCodeBuffer(G)", dir, "JudgeCodeBuffer", permCases, 4, 13*time.Minute)
 	if err != nil {
 		return err
 	}
@@ -272,7 +272,7 @@ func judge(c *lib.Ctx, dir, name string, groups [][]rec) error {
 		}
 		os.WriteFile(p+"-"+name+".ndjson", lib.NDJSON(flat), 0o644)
 	}
-	bad, err := lib.JudgeGroups(c, name, dir, "TraceCodeBuffer", groups, 7, 13*time.Minute)
+	bad, err := lib.JudgeGroups(c, name, dir, "TraceCodeBuffer", groups, 4, 13*time.Minute)
 	if err != nil {
 		return err
 	}
